@@ -1,6 +1,7 @@
 import Mltwist.Props.C07
 import Mltwist.Lemmas.ListingRun
 import Mltwist.Lemmas.ListingRef
+import Mltwist.Model.Compose
 /-
 COMPOSITION, part 4: the disassembler listing (C23/C31, `Model/Listing.lean`) over the REAL dependency model
 (C05/C06/C07, `Model/Deps.lean`).
@@ -29,42 +30,8 @@ namespace Mltwist.Lemmas.Compose
 open Mltwist Mltwist.Deps Mltwist.Lemmas.Deps
 open Mltwist.Listing.Spec (Lawful WF sameBlock content)
 
-/-- text (`Instruction.String()`) and bytes (`Bytes()`) of the instruction with a given original address -/
-abbrev Info := Nat → String × List UInt8
-
-/-- a bound as the listing stores it (`LowerBound`/`UpperBound` return non-negative `int`s on valid positions) -/
-def boundNat (o : Option Int) : Nat := (o.getD 0).toNat
-
-/-- the instruction at position `pos` of the block `b` as the listing sees it -/
-def lIns (info : Info) (b : Deps.Block) (pos : Nat) (i : Deps.Ins) : Listing.Ins :=
-  { text := (info i.origAddr).1, bytes := (info i.origAddr).2, idx := i.blockIdx, addr := i.currAddr,
-    lower := boundNat (b.lowerBound pos), upper := boundNat (b.upperBound pos) }
-
-def lInsList (info : Info) (b : Deps.Block) : List Listing.Ins := b.seq.mapIdx fun pos i => lIns info b pos i
-
-/-- a block as the listing sees it: `Idx()`, `Begin()`, `End()`, `Instructions()` -/
-def lBlock (info : Info) (b : Deps.Block) : Listing.Block := ⟨b.idx, b.begin, b.end_, lInsList info b⟩
-
-/-- `Code.Blocks()`: the block objects in current order -/
-def curBlocks (c : Deps.Code) : List Deps.Block := c.blocks.filterMap fun p => c.store[p]?
-
-/-- THE LISTING VIEW of the dependency model -/
-def listingOf (info : Info) (c : Deps.Code) : Listing.Code := ⟨c.entry, (curBlocks c).map (lBlock info)⟩
-
-/-- `code.Index(k).Move(s, d)`; `none` = rejected (or a panic, which C07 excludes) -/
-def realMoveIns (c : Deps.Code) (k s d : Nat) : Option Deps.Code :=
-  match c.index k with
-  | none => none
-  | some b =>
-    match b.move s d with
-    | .ok b' => some (c.put b')
-    | .error _ => none
-
-/-- `code.Move(s, d)` -/
-def realMoveBlock (c : Deps.Code) (s d : Nat) : Option Deps.Code :=
-  match c.move s d with
-  | .ok c' => some c'
-  | .error _ => none
+-- `Info`, `boundNat`, `lIns`, `lInsList`, `lBlock`, `curBlocks`, `listingOf`, `realMoveIns`, `realMoveBlock`:
+-- `Model/Compose.lean`
 
 /-! ### the current blocks -/
 
@@ -305,16 +272,7 @@ theorem realMoveBlock_lawful (info : Info) {c c' : Deps.Code} (hc : CInv c) {s d
 
 /-! ### the operations at a real state -/
 
-instance : DecidableEq Listing.Code := inferInstance
-
-/-- the code operations at the real state `c`: on the view of `c` — the only argument the listing passes while
-the real state is `c` — they ARE `code.Index(k).Move(s, d)` and `code.Move(s, d)` of the dependency model, seen
-through the view; elsewhere they are the reference transcription (only to be total and lawful on all inputs) -/
-def opsAt (info : Info) (c : Deps.Code) : Listing.CodeOps where
-  moveIns lc k s d :=
-    if lc = listingOf info c then (realMoveIns c k s d).map (listingOf info) else Listing.refOps.moveIns lc k s d
-  moveBlock lc s d :=
-    if lc = listingOf info c then (realMoveBlock c s d).map (listingOf info) else Listing.refOps.moveBlock lc s d
+-- `opsAt info c` (the code operations at the real state `c`): `Model/Compose.lean`
 
 theorem opsAt_moveIns (info : Info) (c : Deps.Code) (k s d : Nat) :
     (opsAt info c).moveIns (listingOf info c) k s d = (realMoveIns c k s d).map (listingOf info) := by
